@@ -5,6 +5,7 @@ import (
 	"go/constant"
 	"go/token"
 	"go/types"
+	"regexp"
 	"sort"
 	"strings"
 
@@ -828,4 +829,218 @@ func c14FollowedPut(f *ssa.Function) (site ssa.CallInstruction, key, obj ssa.Val
 		return nil, nil, nil
 	}
 	return site, key, obj
+}
+
+// ---------------------------------------------------------------------------
+// ROBUST (second pass): values through local aliases, operations through bound
+// method values and deferred closures — used by every handler family rule.
+
+// c14Resolve follows local aliases: a read of a variable (its cell, or the
+// captured variable a closure sees it through) that is assigned exactly once
+// is the value assigned; interface boxing/conversions are looked through.
+func c14Resolve(v ssa.Value) ssa.Value {
+	for i := 0; i < 8 && v != nil; i++ {
+		switch x := v.(type) {
+		case *ssa.ChangeInterface:
+			v = x.X
+			continue
+		case *ssa.ChangeType:
+			v = x.X
+			continue
+		case *ssa.UnOp:
+			if x.Op == token.MUL {
+				if cell := nfCellOf(x.X); cell != nil {
+					if vals := nfStoresTo(cell); len(vals) == 1 {
+						v = vals[0]
+						continue
+					}
+				}
+			}
+		}
+		break
+	}
+	return v
+}
+
+// c14Same: x and m denote the same value (identical, aliases of one value, or
+// reads of one variable cell).
+func c14Same(x, m ssa.Value) bool {
+	return c14SameVar(x, m) || c14Resolve(x) == c14Resolve(m)
+}
+
+// c14KeyLockOp: ci is <LockForKey(b.locks, key)>.<method>() for one of the
+// handler's path keys — called directly (sync.(*RWMutex).M(&entry.RWMutex)),
+// through a bound method value (m := lock.M; m()), with the lock entry read
+// through a local alias or a captured variable.
+func c14KeyLockOp(ci ssa.CallInstruction, method string, keys map[ssa.Value]bool) bool {
+	nc := nfCallOf(ci)
+	if ci.Common().IsInvoke() || len(nc.Args) != 1 {
+		return false
+	}
+	var entry ssa.Value
+	switch {
+	case nc.Name == "sync.(*RWMutex)."+method:
+		recv := c14Resolve(nc.Args[0])
+		fa, ok := recv.(*ssa.FieldAddr)
+		if !ok {
+			return false
+		}
+		entry = c14Resolve(fa.X)
+	case strings.HasSuffix(nc.Name, "locksutil.(*LockEntry)."+method):
+		entry = c14Resolve(nc.Args[0])
+	default:
+		return false
+	}
+	lk, ok := entry.(*ssa.Call)
+	if !ok || !strings.HasPrefix(eng.CalleeName(&lk.Call), "locksutil.LockForKey") || len(lk.Call.Args) != 2 {
+		return false
+	}
+	ld, ok := c14Resolve(lk.Call.Args[0]).(*ssa.UnOp)
+	if !ok || ld.Op != token.MUL {
+		return false
+	}
+	lfa, ok := ld.X.(*ssa.FieldAddr)
+	if !ok || c14TypeName(lfa.X.Type()) != "kv.versionedKVBackend" {
+		return false
+	}
+	if fv := eng.FieldVar(lfa); fv == nil || fv.Name() != "locks" {
+		return false
+	}
+	return keys[lk.Call.Args[1]] || keys[c14Resolve(lk.Call.Args[1])]
+}
+
+// c14Deferred: the defer instructions of f that certainly perform an operation
+// satisfying is when the function exits: a deferred call that is the operation
+// (directly or through a bound method value), or a deferred closure of f every
+// path through which passes such a call.
+func c14Deferred(f *ssa.Function, is func(ci ssa.CallInstruction) bool) []ssa.Instruction {
+	var out []ssa.Instruction
+	for _, b := range f.Blocks {
+		for _, in := range b.Instrs {
+			d, ok := in.(*ssa.Defer)
+			if !ok {
+				continue
+			}
+			if is(d) {
+				out = append(out, d)
+				continue
+			}
+			cl, mc := nfFuncValue(d.Call.Value)
+			if cl == nil || mc == nil || cl.Parent() != f || len(cl.Blocks) == 0 {
+				continue
+			}
+			var ops []ssa.Instruction
+			for _, cb := range cl.Blocks {
+				for _, cin := range cb.Instrs {
+					if cc, isCall := cin.(*ssa.Call); isCall && is(cc) {
+						ops = append(ops, cc)
+					}
+				}
+			}
+			if len(ops) > 0 && eng.Reach(eng.Query{Fn: cl, Barriers: ops, Target: c14IsRet}) == nil {
+				out = append(out, d)
+			}
+		}
+	}
+	return out
+}
+
+// c14IsRollbackOf: ci is <txn>.Rollback(...) on the transaction value txn
+// (invoke, or bound method value), txn possibly read through an alias / captured variable.
+func c14IsRollbackOf(ci ssa.CallInstruction, txn ssa.Value) bool {
+	cc := ci.Common()
+	if cc.IsInvoke() {
+		return cc.Method.Name() == "Rollback" && c14Resolve(cc.Value) == txn
+	}
+	nc := nfCallOf(ci)
+	return strings.HasSuffix(nc.Name, ".Rollback") && nc.Name != eng.CalleeName(cc) && len(nc.Args) >= 1 && c14Resolve(nc.Args[0]) == txn
+}
+
+// c14MetaWrites: the metadata writes of a handler — writeKeyMetadata called
+// directly, or through a forwarding closure that is only called directly —
+// with the record each of them persists (as a value of the handler).
+func c14MetaWrites(f *ssa.Function) ([]ssa.CallInstruction, map[ssa.CallInstruction]ssa.Value) {
+	const pWkm = `^kv\.\(\*versionedKVBackend\)\.writeKeyMetadata$`
+	wkm := eng.Calls(f, pWkm)
+	rec := map[ssa.CallInstruction]ssa.Value{}
+	for _, w := range wkm {
+		rec[w] = w.Common().Args[3]
+	}
+	re := regexp.MustCompile(pWkm)
+	for _, fw := range c14Forwards(f) {
+		if re.MatchString(eng.CalleeName(fw.inner.Common())) && len(fw.args) == 4 && fw.args[3] != nil {
+			wkm = append(wkm, fw.site)
+			rec[fw.site] = fw.args[3]
+		}
+	}
+	return wkm, rec
+}
+
+// c14FollowedVersionDeletes: calls in f of a function of package kv that
+// deletes version data on behalf of its caller: every storage write it makes
+// is <storage parameter>.Delete(getVersionKey(<key parameter>, n, <the same
+// storage parameter>)#0) with n ranging over <metadata parameter>.Versions.
+// Returned per call: the arguments f passes for the key and the metadata.
+type c14VerDel struct {
+	site      ssa.CallInstruction
+	key, meta ssa.Value
+}
+
+func c14FollowedVersionDeletes(f *ssa.Function, st *types.Interface) []c14VerDel {
+	var out []c14VerDel
+	for _, cl := range eng.Calls(f, `.`) {
+		if _, isCall := cl.(*ssa.Call); !isCall {
+			continue
+		}
+		cc := cl.Common()
+		g := cc.StaticCallee()
+		if g == nil || !eng.InPkg(g, "kv") || len(g.Blocks) == 0 || len(g.Params) != len(cc.Args) {
+			continue
+		}
+		dels := eng.Calls(g, `^<logical\.Storage>\.Delete$`)
+		if len(dels) == 0 || len(eng.Calls(g, `^<logical\.Storage>\.Put$`)) > 0 {
+			continue
+		}
+		idx := func(v ssa.Value) int {
+			for i, p := range g.Params {
+				if ssa.Value(p) == v {
+					return i
+				}
+			}
+			return -1
+		}
+		ki, mi := -1, -1
+		ok := true
+		for _, d := range dels {
+			si := idx(d.Common().Value)
+			a := d.Common().Args
+			gv := c14ExtractOf(a[len(a)-1], 0)
+			if si < 0 || !c14IsStorage(g.Params[si], st) || gv == nil || !strings.HasSuffix(eng.CalleeName(&gv.Call), ").getVersionKey") || len(gv.Call.Args) != 5 {
+				ok = false
+				break
+			}
+			k, s := idx(gv.Call.Args[2]), idx(gv.Call.Args[4])
+			if k < 0 || s != si || (ki >= 0 && ki != k) {
+				ok = false
+				break
+			}
+			ki = k
+			// the version numbers range over the Versions map of a *KeyMetadata parameter
+			m := -1
+			for i, p := range g.Params {
+				if c14TypeName(p.Type()) == "kv.KeyMetadata" && c14VersionNumberOrigin(gv.Call.Args[3], p) == "all" {
+					m = i
+				}
+			}
+			if m < 0 || (mi >= 0 && mi != m) {
+				ok = false
+				break
+			}
+			mi = m
+		}
+		if ok && ki >= 0 && mi >= 0 {
+			out = append(out, c14VerDel{site: cl, key: cc.Args[ki], meta: cc.Args[mi]})
+		}
+	}
+	return out
 }
